@@ -1,6 +1,6 @@
 """Copy a seeding sub-agent's deliverable (/tmp/seed_<ID>_out) to /verif/seeded/<ID>/ after checking the patch applies to /repo HEAD.
 
-usage: python -m vf.seeded_intake C04 C06 ...
+usage: python -m vf.seeded_intake [--round2] C04 C06 ...   (round 2 deliverables /tmp/seed2_<ID>_out are kept as seeded/<ID>b)
 The confirmation proper (demo on both trees, test suite, checks) is done by `python -m vf.seeded --tests <ids>`.
 """
 
@@ -14,8 +14,13 @@ ROOT = os.path.dirname(os.path.dirname(os.path.abspath(__file__)))
 
 
 def main():
-    for sid in sys.argv[1:]:
-        src = f"/tmp/seed_{sid}_out"
+    args = sys.argv[1:]
+    rnd = ""
+    if args and args[0] == "--round2":
+        rnd, args = "b", args[1:]
+    for pid in args:
+        sid = pid + rnd
+        src = f"/tmp/seed2_{pid}_out" if rnd else f"/tmp/seed_{pid}_out"
         if not all(os.path.exists(os.path.join(src, f)) for f in ("patch.diff", "demo.py", "meta.json")):
             print(sid, "incomplete deliverable")
             continue
